@@ -315,6 +315,21 @@ def _nested_desc(fn, where):
             continue
         if _assigns_name(st, iv) or (st is not nxt and _assigns_name(st, jv)):
             raise TranslateError(f'{where}: loop variable re-assigned in the outer loop')
+        if any(isinstance(x, ast.Break) for x in ast.walk(st)):
+            # an exit of the OUTER loop: its tests may compare with the outer thresholds only (tol_2, tol_3) --
+            # never with the inner threshold `tol`, and never read the inner loop's exit_early flag (the early
+            # exit reaches the outer test through the forced tol_2 = inf)
+            if not isinstance(st, ast.If):
+                raise TranslateError(f'{where}: outer break outside an if statement')
+            tests, node = [], st
+            while isinstance(node, ast.If):
+                tests.append(node.test)
+                node = node.orelse[0] if len(node.orelse) == 1 and isinstance(node.orelse[0], ast.If) else None
+            used = {x.id for t in tests for x in ast.walk(t) if isinstance(x, ast.Name)}
+            thresholds = {u for u in used if u.startswith('tol')}
+            if not thresholds or not thresholds <= {'tol_2', 'tol_3'} or 'exit_early' in used:
+                raise TranslateError(f'{where}: the outer loop\'s stop test uses {sorted(thresholds | (used & {"exit_early"}))}; '
+                                     'it must compare with tol_2 / tol_3 only')
         sts = _stores(st)
         if sts:
             if not (isinstance(st, ast.Assign) and len(sts) == 1 and sts[0] is st
